@@ -288,7 +288,7 @@ def process_unit(path, tier, seed):
     rlimit = meta.get("rlimit")
     if tier == "thorough":
         rlimit = max(40, (rlimit or 10) * 2)
-    with cf.ThreadPoolExecutor(max_workers=4) as ex:
+    with cf.ThreadPoolExecutor(max_workers=8) as ex:
         f1 = ex.submit(run_verus, genpath, rlimit, None)
         vfs = [ex.submit(run_verus, vp, rlimit, None) for vp, _, _ in vruns]
         res = f1.result()
@@ -421,7 +421,7 @@ def main(argv):
         print("no unit serves %s" % pid)
         return 2
     recs = []
-    with cf.ThreadPoolExecutor(max_workers=4) as ex:
+    with cf.ThreadPoolExecutor(max_workers=8) as ex:
         for rec in ex.map(lambda p: process_unit(p, tier, seed), units):
             recs.append(rec)
 
